@@ -358,11 +358,12 @@ class State(object):
 
 
 class Step(object):
-    __slots__ = ("outcome", "inv", "msgs", "st_text", "_st", "raw")
+    __slots__ = ("outcome", "inv", "msgs", "st_text", "_st", "raw", "dup")
 
     def __init__(self, raw):
         self.raw = raw
         self._st = None
+        self.dup = False
         self.st_text = None
         self.inv, self.msgs = [], []
         if raw == "notrun" or " " not in raw:
@@ -375,6 +376,11 @@ class Step(object):
             body = raw[:k]
         f = body.split(" ")
         self.outcome = f[0]
+        if self.outcome == "dup":
+            # second copy of a session's last client message, skipped when the log is applied (fix 92a4e2e): for every
+            # monitor this is an entry without effect, like `skip`; mon_c10 checks that it really had none
+            self.dup = True
+            self.outcome = "skip"
         if len(f) > 1 and f[1].startswith("inv=") and f[1] != "inv=-":
             self.inv = f[1][4:].split(",")
         for m in f[3:]:
@@ -1916,6 +1922,17 @@ def mon_c10(tr):
             break
         k = e["k"]
         Q = st.st
+        if k == "M" and i > 0 and tr.steps[i - 1].st_text is not None:
+            is_retry = e["cmid"] != 0 and e["sid"] in alive and last.get(e["sid"], 0) == e["cmid"]
+            if is_retry and not st.dup:
+                F.append(("c10:retry-applied-twice", "%s repeats the last client message id of its session and was processed again (outcome %s, %d messages)" % (
+                    entry_text(e), st.outcome, len(st.msgs)), i))
+            if st.dup and not is_retry:
+                F.append(("c10:message-swallowed", "%s was skipped as a retry although it does not repeat the last client message id of its session" % entry_text(e), i))
+            if st.dup and i > 0 and st.st_text is not None and tr.steps[i - 1].st_text is not None and st.st_text != tr.steps[i - 1].st_text:
+                F.append(("c10:retry-changed-state", "the skipped retry %s changed the state" % entry_text(e), i))
+            if st.dup and st.msgs:
+                F.append(("c10:retry-produced-output", "the skipped retry %s produced output" % entry_text(e), i))
         if k in ("M", "X") and st.outcome != "skip":
             last[e["sid"]] = e["cmid"]
             if Q is not None and Q.alive(e["sid"]):
